@@ -26,7 +26,7 @@ ASSUMPTIONS = [
 REQUIRED_OUTCOMES = ["kernel/ok", "filterbank/ok", "timeseries/ok", "gulp_identity/ok", "pulse_train/ok"]
 
 CVAL = 299792458.0
-N = 240
+N = 250  # not divisible by 3: sub-integration boundaries fall between samples
 BANDS = [(1500.0, -60.0, 6), (1200.0, 40.0, 4)]
 DMS = {0: [0.0, 2.0, 30.0, 120.0, -30.0], 1: [0.0, 50.0, -50.0]}
 PERIODS = [8.0, 8.001, 7.3891, 23.7, 40.0625]
